@@ -146,6 +146,12 @@ func isDistributive(expr *parser.Expr) bool {
 		if _, ok := distributiveAggregations[aggr.Op]; !ok {
 			return false
 		}
+	case *parser.Call:
+		// absent() and absent_over_time() say something about all series at once: an
+		// engine which holds none of them must not answer for the engines which do.
+		if aggr.Func.Name == "absent" || aggr.Func.Name == "absent_over_time" {
+			return false
+		}
 	}
 
 	return true
